@@ -199,14 +199,15 @@ Section Gen.
       rbind (match mdeps1 with
              | Some l => rmap Some
                  (Ok (fold_left (fun files d => iset_union files (odflt [] (alookup (m_name d) (ls_depfiles st)))) l []))
-             | None => Ok None end) (fun imported =>
+             | None => Ok None end) (fun imported0 =>
+      let imported := match imported0 with Some [] => None | o => o end in
       let st1 := match m_build_dep_files m with
                  | Some l => add_depfiles (m_name m) l st
                  | None => st end in
       let local_deps := m_build_dep_files m in
       let combined := match imported, m_build_dep_files m with
                       | None, None => None
-                      | _, _ => Some (odflt [] imported ++ odflt [] (m_build_dep_files m)) end in
+                      | _, _ => Some (sort_paths (odflt [] imported ++ odflt [] (m_build_dep_files m))) end in
       let deps_hash := match combined with Some l => H (enc_usize (length l) ++ flat_map enc_path l) | None => 0%N end in
       match m_build m with
       | Some cb =>
